@@ -18,6 +18,7 @@ mod val;
 mod p_clvm;
 mod corpus;
 mod p_history;
+mod p_cldb;
 mod p_reader;
 mod p_repl;
 mod p_symbols;
@@ -40,6 +41,7 @@ pub fn handle(job: &Value) -> Value {
         "usecheck" => p_usecheck::op_usecheck(job),
         "repl" => p_repl::op_repl(job),
         "parse" => p_reader::op_parse(job),
+        "cldb" => p_cldb::op_cldb(job),
         "modrun" => p_repl::op_modrun(job),
         "ping" => json!({"pong": true}),
         other => json!({"error": format!("unknown op {other}")}),
@@ -58,6 +60,8 @@ fn main() {
         "replay-clvm" => p_clvm::replay(&rest),
         "drive-clvm" => p_clvm::drive(&rest),
         "drive-compile" => p_compile::drive(&rest),
+        "drive-cldb" => p_cldb::drive(&rest),
+        "replay-cldb" => p_cldb::replay(&rest),
         "drive-reader" => p_reader::drive(&rest),
         "replay-reader" => p_reader::replay(&rest),
         "drive-repl" => p_repl::drive(&rest),
